@@ -486,8 +486,12 @@ func srvPooled(o *Out, rig *srvRig, r *rand.Rand, id *int, pfx string) {
 					q.args.(*PArgs).Mode = "err" // a failing handler: the reply object is still returned to the pool
 					failing = true
 				}
+				if i%17 == 9 {
+					q.args.(*PArgs).Mode = "veto" // the handler succeeds, a PostCall plugin fails the call afterwards
+					failing = true
+				}
 				unencodable := false
-				if i%13 == 7 && !q.oneway {
+				if i%13 == 7 && !q.oneway && !failing {
 					q.args.(*PArgs).Mode = "nan" // the handler succeeds but its reply cannot be encoded
 					unencodable = true
 				}
